@@ -656,14 +656,6 @@ def op_toggle_formula(g, dv, protected):
     return None
   t, c = g.rng.choice(cands)
   if c.isFormula and c.formula:
-    # D0: do not freeze error cells into a data column (a stored error loses its class when the
-    # document is reloaded: finding F-r).
-    try:
-      cells = dv.cells(t.tableId, c.colId).values()
-    except KeyError:
-      return None
-    if any(isinstance(v, list) and v and v[0] == "E" for v in cells):
-      return None
     return [["ModifyColumn", t.tableId, c.colId, {"isFormula": False}]]
   if not c.isFormula and c.pure not in ("Ref", "RefList"):
     f = gen_formula(g, dv, t, limit_ref=c.ref, kinds=["arith", "str"])
@@ -934,7 +926,21 @@ def op_ref_trigger(g, dv, protected):
           ["UpdateRecord", "_grist_Tables_column", c.ref, {"recalcWhen": g.rng.choice([0, 2])}]]
 
 
+def op_error_trigger(g, dv, protected):
+  """A data column whose trigger formula raises: new records get an error value stored in a data
+  column (it records what the cell held before, which for most types is None)."""
+  ts = [t for t in data_tables(dv) if len(t.user_cols()) < g.max_cols]
+  if not ts:
+    return None
+  t = g.rng.choice(ts)
+  return [["AddColumn", t.tableId, g.new_col_id("t"),
+           {"type": g.rng.choice(["Any", "Date", "ChoiceList", "Text", "Int", "Numeric"]), "isFormula": False,
+            "formula": g.rng.choice(["1 / 0", "UPPER(value) + 1", "rec.no_such_column", "int('x')"]),
+            "recalcWhen": 0}]]
+
+
 OPS = {
+  "error_trigger": op_error_trigger,
   "ref_trigger": op_ref_trigger,
   "derived_trigger": op_derived_trigger,
   "add_records": op_add_records,
@@ -974,7 +980,7 @@ DEFAULT_WEIGHTS = {
   "add_view_section": 1, "add_summary": 3, "update_summary": 2, "detach_summary": 1,
   "add_summary_formula": 1, "remove_view_things": 1, "add_view": 1, "page_indent": 1, "set_sort": 1,
   "add_reverse": 1, "display_formula": 1, "add_rule": 1, "duplicate_table": 1,
-  "trigger_column": 1, "derived_trigger": 0, "ref_trigger": 0,
+  "trigger_column": 1, "derived_trigger": 0, "ref_trigger": 0, "error_trigger": 0,
 }
 
 
